@@ -35,10 +35,10 @@ def run(ctx):
             failing.append(dict(program="\n".join(L), injected=kind, why="linting ends with %s" % sa))
             continue
         want_line = None
-        first = marker.split("\n")[-1]
-        for i, l in enumerate(L):
-            if l == first or (kind == "first-instruction-is-function" and l == marker + ":"):
-                want_line = i
+        ml = marker.split("\n")
+        for i in range(len(L)):
+            if L[i:i + len(ml)] == ml:
+                want_line = i + len(ml) - 1
                 break
         if kind == "first-instruction-is-function":
             want_line = 1        # the function's first instruction
